@@ -190,6 +190,8 @@ class Prov:
             out = set()
             for o in rv["ops"]:
                 out |= self.origins_op(o)
+            if not rv["ops"] and rv.get("agg") in ("closure", "coroutine", "coroutine_closure"):
+                return set()   # a capture-less closure value carries no data
             if not rv["ops"]:
                 out.add(("const", _freeze({"text": "%s::%s" % (rv.get("adt", rv["agg"]), rv.get("variant", "")), "unit": True})))
             return out
